@@ -42,9 +42,9 @@ func (f *c06Fault) tag() string {
 }
 
 var (
-	c06VBs    = map[*RestTester]*vstore.Bucket{}
-	c06VBsMu  sync.Mutex
-	c06FaultM sync.Mutex
+	c06VBs     = map[*RestTester]*vstore.Bucket{}
+	c06VBsMu   sync.Mutex
+	c06FaultM  sync.Mutex
 	c06Fired   bool
 	c06Reached bool
 	c06FiredOp string
